@@ -452,7 +452,11 @@ def ktimer_cases(seed, methods=METHODS):
                     # timer must not be run against a fresher clock than the one iv_now shows inside its handler
                     ("valid ; clk 70000000", "nop", []),
                     ("valid ; clk 70000000", "xpost e0", []),
-                    ("valid ; clk 60000000 ; kreg k1", "nop", ["on k1 1 : nop"])]):
+                    ("valid ; clk 60000000 ; kreg k1", "nop", ["on k1 1 : nop"]),
+                    # a task keeps re-registering itself (zero-deadline polls) over a stretch of time that contains the expiry the kernel
+                    # timer is armed for, then stops; the later timer t2 must still fire on time
+                    ("kreg k1", "nop", ["on k1 1 : clk 30000000 ; ?kreg k1", "on k1 2 : clk 30000000 ; ?kreg k1", "on k1 3 : clk 5000000 ; ?kreg k1", "on k1 4 : nop"]),
+                    ("kreg k1", "xpost e0", ["on k1 1 : clk 61000000 ; ?kreg k1", "on k1 2 : ?kreg k1", "on k1 3 : nop"])]):
                 L = ([f"exclude {m}"] if m else []) + ["cfg waitlimit=40 cblimit=300", "obj fd f0 sock", "obj timer t0", "obj timer t2", "obj timer t9",
                      "obj event e0", "obj task k1", "on f0.in * : rd f0", f"on f0.in {k} : {hact}", "on t9 1 : ?unreg f0 ; ?evunreg e0 ; ?tunreg t2"] + extra
                 for w in range(k):
